@@ -30,15 +30,20 @@ ID = "C10"
 LEVEL = "model_checking"
 TECHNIQUE = ("explicit-state BFS over rewrite sequences on real Pipeline objects (states merged by canonical pipeline form), oracle = reference "
              "evaluator of the ORIGINAL pipeline under the tracked name map; aliasing probed by mutating either object after every non-mutating rewrite")
-RULE = ("bases: hand-picked G-DAG pipelines (chain, diamond, fan-in, tuple-output leaf/interior, nullary, signature/PipeFunc default, bound root/upstream, "
-        "renamed, disconnected; thorough: ALL G-DAG N<=3 and the one-at-a-time decorations of N<=2) + the five MapSpec pipelines of C03; alphabet: copy, "
-        "cloudpickle round trip, join and | with a disjoint fresh pipeline, update_renames (every root / output -> fresh name), update_scope(s) on "
-        "inputs/outputs/both and update_scope(None), nest_funcs (every convex subset of >= 2 top-level nodes with one leaf, in place and via copy, and '*'), "
-        "simplified_pipeline(every node, both conservatively_combine), split_disconnected (every component), add_mapspec_axis(root, fresh axis; thorough: "
-        "zip onto an added axis); sequences of length <= 2 (quick) / <= 3 (thorough), states merged by canonical form. On every state: pipeline(output, ...) "
-        "for every retained output x {all needed roots, defaulted roots omitted, each single suppliable intermediate} x {flat dotted keys, nested scope "
-        "dicts}, requested tuples, and map(parallel=False, storage='dict') (flat and nested inputs). non-trivial = distinct (base, canonical state) "
-        "other than the base itself")
+RULE = ("bases: 13 hand-picked G-DAG pipelines (chain, diamond, fan-in, tuple-output leaf / interior, nullary, signature / PipeFunc default, bound root / "
+        "upstream, renamed, disconnected, shared root) + the five MapSpec pipelines of C03; thorough adds ALL G-DAG pipelines with N<=3 functions and the "
+        "default/bound decorations of N<=2. Alphabet: copy, cloudpickle round trip, join and | with a disjoint fresh pipeline, update_renames (every root / "
+        "output -> fresh name), update_scope('s') on inputs / outputs / both and update_scope(None) likewise (thorough: re-scoping to 't'), nest_funcs "
+        "(every convex subset of >= 2 top-level nodes with one leaf, in place and on a copy, and '*'), simplified_pipeline(every node, both "
+        "conservatively_combine), split_disconnected (every component), add_mapspec_axis(every root, fresh axis; thorough: a second axis and zipping "
+        "another root onto an added axis). BFS over sequences of length <= 2 (quick; thorough: <= 3 for the hand-picked bases and N<=2, <= 2 for the "
+        "decorated and the single-output N=3 bases, 1 for every N=3 base); two histories are merged when the canonical form of the real pipeline AND the "
+        "model's name map / axes / partition coincide. On every new state: pipeline(output, ...) for every retained output x {all needed roots, "
+        "defaulted roots omitted, each single suppliable intermediate} x {flat dotted keys, nested scope dicts}, requested tuples, and "
+        "map(parallel=False, storage='dict') with flat / nested / default-omitting inputs. On every transition of a rewrite that returns a new "
+        "pipeline: original unchanged (form and results), no shared PipeFunc objects, then defaults+renames of every root and a bound value on every "
+        "function of the RESULT must not reach the original, and the same on the ORIGINAL must not reach the result. non-trivial = distinct "
+        "(base, canonical state) other than the base itself")
 ASSUMPTIONS = ["reference evaluators of vmc/gen_dag.py (bound > keyword > upstream > default) and vmc/gen_map.py (MapSpec denotation) for the ORIGINAL pipeline",
                "user functions are uninterpreted term builders, so value equality is derivation equality",
                "a nested node runs as one function: to request one of its outputs every (non-bound, non-defaulted) root of all its members is supplied, and an "
@@ -47,7 +52,8 @@ ASSUMPTIONS = ["reference evaluators of vmc/gen_dag.py (bound > keyword > upstre
                "when simplified_pipeline / nest_funcs refuse (ValueError 'No combinable nodes', NotImplementedError for MapSpecs, 'Cannot combine' MapSpecs) "
                "and when split_disconnected says 'fully connected', no transition is taken (the property does not say when they apply)",
                "simplified_pipeline must retain the requested output; which other outputs it retains is read from the result",
-               "states with equal canonical form have equal futures (fresh names are functions of the current name, not of the step)"]
+               "states with equal canonical form and equal model have equal futures (fresh names are functions of the current name, not of the step)",
+               "work units of one base share no visited set: `states` sums per-unit counts, `states_distinct` is the number of distinct (base, state) pairs"]
 BUDGET = {"quick": 75.0, "thorough": 900.0}
 
 AXIS_SIZES = {"k0": 2, "k1": 3, "k2": 2}
